@@ -64,7 +64,7 @@ def guard_fixedtext(msg, caps, whole_fix):
 
 
 def run(c):
-    c.go2coq_sources = ["c03.go", "textmatch.go", "c03loop.go", "c03pre.go"]   # private translator build: another family's generator cannot break this check
+    c.go2coq_sources = ["c03.go", "textmatch.go", "c03loop.go", "c03pre.go", "c03src.go"]   # private translator build: another family's generator cannot break this check
     thorough = c.tier == "thorough"
     c.rule = ("direct: renderMessage (hook) on capture sets drawn from 10 name chains whose names prefix one another, in shuffled "
               "order, some names twice or three times, up to 20 captures, with typed-nil / nil-interface / empty-node-slice captures, templates from a token grammar ($name, $name.b, $namez, $$, $nope, lone $), with and "
@@ -80,6 +80,9 @@ def run(c):
         "can panic, sort.Slice / sort.SliceStable kept apart as two abstract operations)",
         "sort.SliceStable is the stable insertion sort (RenderPre.stable_sort: a sorted permutation in which equal elements keep their order); "
         "reflect.ValueOf(n).IsNil() panics on a nil interface, is true for a typed nil pointer and false for a node / a node slice",
+        "go2coq c03src: the statement-level translator of rulesRunner.fileBytes (the world is the cell rr.src, os.ReadFile a parameter whose error is "
+        "the boolean err != nil; a nil slice is None) and its syntactic facts about newRulesRunner (`*rr = rulesRunner{...}` without src / filename), "
+        "run (rr.filename) and the package's mentions of rr.src; os.ReadFile returns the bytes the file has at the time of the call",
         "go/parser, go/types and gogrep deliver the match and its captures; go/token offsets",
         "harness/cmd/c03 (its independent specification oracle) and hooks VerifRenderMessage / VerifNodeText (build tag verif)",
     ]
@@ -87,7 +90,7 @@ def run(c):
                 "known finding: fixedText deliberately renders `$x.f` with x=`&a` as `a.f` (not the exact source text)"]
 
     c.sh([os.path.join(c.verif, "coq", "build.sh")], timeout=3400)
-    c.require_theories("Base/*.v", "Regex/Utf8.v", "Engine/TruncateSpec.v", "Engine/RenderSpec.v", "Engine/RenderLoop.v", "Engine/RenderPre.v")
+    c.require_theories("Base/*.v", "Regex/Utf8.v", "Engine/TruncateSpec.v", "Engine/RenderSpec.v", "Engine/RenderLoop.v", "Engine/RenderPre.v", "Engine/FileBytes.v")
 
     gen_ok = False
     loop_ok = False
@@ -103,9 +106,20 @@ def run(c):
     if c.go2coq("c03pre", "Gen_C03Pre.v"):
         if c.coq_compile(["Gen_C03Pre.v"]):
             pre_ok = True
+    # rulesRunner.fileBytes (the bytes nodeText slices), translated statement by statement; the life of rr.src / rr.filename
+    # across the runs of one reused RunnerState read off newRulesRunner / run / the package
+    src_ok = False
+    if c.go2coq("c03src", "Gen_C03Src.v"):
+        if c.coq_compile(["Gen_C03Src.v"]):
+            src_ok = True
     if gen_ok:
-        c.install_tmpl("C03/Inst_Render.v", "C03/Def_RenderLoop.v", "C03/Inst_RenderLoop.v", "C03/Def_RenderPre.v", "C03/Inst_RenderPre.v", "C03/C03.v")
+        c.install_tmpl("C03/Inst_Render.v", "C03/Def_RenderLoop.v", "C03/Inst_RenderLoop.v", "C03/Def_RenderPre.v", "C03/Inst_RenderPre.v", "C03/Inst_FileBytes.v",
+                       "C03/C03.v")
         c.coq_compile(["Inst_Render.v"])
+        if src_ok:
+            src_ok = c.coq_compile(["Inst_FileBytes.v"])
+        else:
+            c.obligation("coq:Inst_FileBytes.v", False, "not compiled: fileBytes did not translate")
         if loop_ok:
             loop_ok = c.coq_compile(["Def_RenderLoop.v"])   # definitions only: the executed model
         if loop_ok and pre_ok:
@@ -120,7 +134,7 @@ def run(c):
             c.coq_compile(["Inst_RenderPre.v"])
         else:
             c.obligation("coq:Inst_RenderPre.v", False, "not compiled: the statements in front of the scanning loop did not translate")
-        if loop_ok and pre_ok:
+        if loop_ok and pre_ok and src_ok:
             c.coq_compile(["C03.v"])
         else:
             c.obligation("coq:C03.v", False, "not compiled: a file it depends on failed")
